@@ -53,6 +53,7 @@ def observe(files, main="m.emb"):
         ob["kinds"] = c14abs.real_kinds(errors)
         ob["messages"] = [g[0].message.split("\n")[0] for g in errors]
         ob["locations"] = [str(g[0].location) for g in errors]
+        ob["notes"] = [[str(n.location) for n in g[1:]] for g in errors]
         if not errors and ir is not None:
             ob["bo_real"] = c14abs.real_byte_orders(ir)
     # abstraction for the model
@@ -84,6 +85,57 @@ def model_line(program):
 
 def bo_line(program):
     return "BYTEORDER " + json.dumps(program, separators=(",", ":"))
+
+
+def attrs_lines(program):
+    """One `ATTRS` op per non-empty attribute list, in the order of `check_attributes_in_ir`."""
+    out = []
+    for scope, attrs in c14abs.attr_lists(program):
+        if attrs:
+            out.append(("ATTRS %s %s" % (scope, json.dumps(attrs, separators=(",", ":"))), attrs))
+    return out
+
+
+def located_from_model(answers, lists):
+    """model answers of the ATTRS ops of one case -> [(kind, location, [note locations])]."""
+    out = []
+    for ans, attrs in zip(answers, lists):
+        if not ans.startswith("located"):
+            raise common.InfraError("model answered %r to ATTRS" % ans[:100])
+        for item in [x for x in ans[len("located"):].strip().split(";") if x]:
+            kind, where = item.rsplit("@", 1)
+            where, _, note = where.partition("+")
+            idx, part = where.split(".")
+            a = attrs[int(idx)]
+            if a["loc"]["syn"]:
+                continue            # errors in synthetic copies are hidden by error.split_errors
+            out.append((kind, a["loc"][part], [attrs[int(note)]["loc"]["whole"]] if note else []))
+    return out
+
+
+def field_located_from_model(ans, program):
+    """FIELDLOC answer -> [(kind, location or None (= some `$default byte_order` value))], defaults"""
+    if not ans.startswith("fieldloc"):
+        raise common.InfraError("model answered %r to FIELDLOC" % ans[:100])
+    fields, defaults = c14abs.fields_by_id(program)
+    out = []
+    for item in [x for x in ans[len("fieldloc"):].strip().split(";") if x]:
+        who, _, rest = item.partition(":")
+        kind, _, at = rest.rpartition("@")
+        tid, _, fname = who.partition(".")
+        f = fields[(int(tid), fname)]
+        if at == "field":
+            loc = f["loc"]
+        elif at == "inherited":
+            loc = None
+        else:
+            loc = f["attrs"][int(at[4:])]["loc"]["value"]
+        out.append((kind, loc))
+    return out, defaults
+
+
+def located_real(ob):
+    return [(k, l, n) for k, l, n in zip(ob["kinds"], ob["locations"], ob["notes"])]
 
 
 def expected_model_answer(ob):
@@ -1105,6 +1157,23 @@ def run_cases(chk, cases, model_ok, stats):
         if ob["program"] is not None:
             lines.append(model_line(ob["program"]))
             idx.append(len(obs) - 1)
+            if ob["exc"] is None:
+                try:
+                    al = attrs_lines(ob["program"])
+                except c14abs.OutOfScope:
+                    al = None
+                if al is not None:
+                    ob["attr_lists"] = [a for _, a in al]
+                    ob["attr_answers"] = []
+                    for ln, _ in al:
+                        lines.append(ln)
+                        idx.append(len(obs) - 1)
+            if ob["exc"] is None and (not ob["kinds"] or all(
+                    k.split(":")[0] in c14abs.VERIFY_KINDS for k in ob["kinds"])):
+                # the verify pass ran (and reported, or the module went on): where do the errors of
+                # its Field traversal point?
+                lines.append("FIELDLOC " + json.dumps(ob["program"], separators=(",", ":")))
+                idx.append(len(obs) - 1)
             if "bo_real" in ob:
                 lines.append(bo_line(ob["program"]))
                 idx.append(len(obs) - 1)
@@ -1115,6 +1184,61 @@ def run_cases(chk, cases, model_ok, stats):
         c, ob = cases[i], obs[i]
         if ans == "bad-op":
             raise common.InfraError("model rejected op for case %r" % c.text[:200])
+        if line.startswith("ATTRS "):
+            ob["attr_answers"].append(ans)
+            if len(ob["attr_answers"]) < len(ob["attr_lists"]):
+                continue
+            # all lists of this case answered: the located errors of the attribute-table rules
+            stats["model_attr_locations_checked"] = stats.get("model_attr_locations_checked", 0) + 1
+            model_loc = located_from_model(ob["attr_answers"], ob["attr_lists"])
+            kinds = ob["kinds"] or []
+            fam = [k.split(":")[0] in c14abs.ATTR_TABLE_KINDS for k in kinds]
+            if kinds and all(k in c14abs.EARLY_KINDS for k in kinds):
+                continue                    # stopped before the attribute pass
+            if kinds and all(fam):
+                real_loc = located_real(ob)  # the attribute pass reported: kinds, spans and notes, in order
+                stats["attr_errors_located"] = stats.get("attr_errors_located", 0) + len(real_loc)
+            elif not any(fam):
+                real_loc = []               # accepted, or rejected by a later pass: no attribute-table error
+            else:
+                real_loc = None             # cannot happen (a pass with errors ends the pipeline)
+            if real_loc == model_loc:
+                continue
+            stats["disagreements"] += 1
+            chk.violation("correspondence",
+                          {"input": c.text, "main": c.main, "rule": c.rule, "tag": c.tag,
+                           "model": [list(x) for x in model_loc], "observed": [list(x) for x in real_loc or []],
+                           "messages": ob.get("messages"),
+                           "expected": "every error of the attribute-table rules is located where the model says: "
+                                       "duplicate at the whole attribute (note at the first occurrence), unknown / "
+                                       "not defaultable at the name, wrong value at the value",
+                           "theorem_or_correspondence": "model_c14 ATTRS (checkAttrListL / C14_attr_errors_located) vs "
+                                                        "locations of the errors of attribute_util._check_attributes"},
+                          key="input:" + c.text, found_input=False)
+            continue
+        if line.startswith("FIELDLOC "):
+            stats["model_field_locations_checked"] = stats.get("model_field_locations_checked", 0) + 1
+            model_loc, defaults = field_located_from_model(ans, ob["program"])
+            real_loc = [(k, l) for k, l in zip(ob["kinds"] or [], ob["locations"] or [])
+                        if k in c14abs.FIELD_VERIFY_KINDS]
+            stats["field_errors_located"] = stats.get("field_errors_located", 0) + len(real_loc)
+            same = len(model_loc) == len(real_loc) and all(
+                mk == rk and (ml == rl if ml is not None else rl in defaults)
+                for (mk, ml), (rk, rl) in zip(model_loc, real_loc))
+            if same:
+                continue
+            stats["disagreements"] += 1
+            chk.violation("correspondence",
+                          {"input": c.text, "main": c.main, "rule": c.rule, "tag": c.tag,
+                           "model": [list(x) for x in model_loc], "observed": [list(x) for x in real_loc],
+                           "messages": ob.get("messages"),
+                           "expected": "'byte_order required' at the field; 'not allowed' / 'Null' at the value of "
+                                       "the field's own byte_order attribute or of the $default in effect; "
+                                       "[requires] placement errors at the value of the field's own [requires]",
+                           "theorem_or_correspondence": "model_c14 FIELDLOC (verifyFieldsL / C14_field_errors_located) "
+                                                        "vs locations of the errors of _verify_field_attributes"},
+                          key="input:" + c.text, found_input=False)
+            continue
         if line.startswith("BYTEORDER "):
             stats["model_bo_checked"] = stats.get("model_bo_checked", 0) + 1
             want = expected_bo_answer(ob, ob["program"])
